@@ -55,6 +55,17 @@ type Stats struct {
 	DistinctCap  bool  `json:"distinct_capped"`
 	WallMS       int64 `json:"wall_ms"`
 	Shrinks      int64 `json:"shrink_runs"`
+	knownList    []KnownFinding
+}
+
+// IsKnown reports whether f matches a recorded known finding (and counts the hit), so
+// that an engine enumerating many fault points per case can keep going past it.
+func (s *Stats) IsKnown(f *Failure) bool {
+	if k := matchKnown(s.knownList, f); k != nil {
+		s.Known[k.Class+" "+k.SigRe]++
+		return true
+	}
+	return false
 }
 
 func newStats() *Stats {
@@ -136,7 +147,7 @@ func loadKnown(prop string) []KnownFinding {
 
 func matchKnown(ks []KnownFinding, f *Failure) *KnownFinding {
 	for i := range ks {
-		if ks[i].Class == f.Class && ks[i].re.MatchString(f.Sig) {
+		if (ks[i].Class == "" || ks[i].Class == f.Class) && ks[i].re.MatchString(f.Sig) {
 			return &ks[i]
 		}
 	}
@@ -252,6 +263,7 @@ func (e Engine[C]) batch(t *testing.T, seed uint64, st *Stats, known []KnownFind
 		if !searching {
 			// shrink runs must not pollute coverage counters
 			local = newStats()
+			local.knownList = known
 		}
 		f := safeRun(e, t, c, local)
 		if searching {
@@ -397,8 +409,12 @@ func Main(t *testing.T, engines ...runner) {
 				continue
 			}
 			st := newStats()
+			st.knownList = loadKnown(prop)
 			res.Engines[e.name()] = st
 			f := e.replay(t, rf.Case, st)
+			if f != nil && matchKnown(st.knownList, f) != nil {
+				fmt.Printf("REPLAY-KNOWN class=%s sig=%s\n%s\n", f.Class, f.Sig, f.Msg)
+			}
 			st.Evaluations = 1
 			res.Engine = e.name()
 			res.Failure = f
@@ -422,6 +438,7 @@ func Main(t *testing.T, engines ...runner) {
 	for _, e := range sel {
 		totalW += e.weight()
 		res.Engines[e.name()] = newStats()
+		res.Engines[e.name()].knownList = known
 	}
 	spent := map[string]time.Duration{}
 	round := uint64(0)
